@@ -146,10 +146,10 @@ def pickLeading (init : List InitTrack) : Except Err Int :=
 def effInit (init0 : List InitTrack) : List InitTrack :=
   if fmp4SkipsUnsupportedTracks then init0.filter (fun t => kindKnown t.kind) else init0
 
-/-- the checks of `run` between `Unmarshal` and `setTracks`, on the effective track list -/
+/-- the rest of `run` up to `setTracks`, on the effective track list: (repair of F8) no supported track left,
+    `fmp4PickLeadingTrack`, the `clientMaxTracksPerStream` bound -/
 def FStream.startChecks (isLeading : Bool) (firstIdx : Nat) (init : List InitTrack) : Except Err FStream :=
   if (fmp4SkipsUnsupportedTracks && init.isEmpty) = true then .error .noSupportedTracks
-  else if (!isLeading && init.length != 1) = true then .error .renditionMultiTrack
   else
     match pickLeading init with
     | .error e => .error e
@@ -157,9 +157,11 @@ def FStream.startChecks (isLeading : Bool) (firstIdx : Nat) (init : List InitTra
       if (init.length : Int) > clientMaxTracksPerStream then .error .tooManyTracks
       else .ok { isLeading := isLeading, firstIdx := firstIdx, init := init, leadingTrackID := lid }
 
-/-- prefix of `clientStreamProcessorFMP4.run` up to `setTracks` (with the repairs of F8/F9 when the source has them) -/
+/-- prefix of `clientStreamProcessorFMP4.run` up to `setTracks`, in source order: (repair of F9) zero time scale,
+    the one-track rule for renditions, (repair of F8) the filter, then `startChecks` -/
 def FStream.start (isLeading : Bool) (firstIdx : Nat) (init0 : List InitTrack) : Except Err FStream :=
   if (fmp4RejectsZeroTimeScale && init0.any (·.timeScale == 0)) = true then .error .zeroTimeScale
+  else if (!isLeading && init0.length != 1) = true then .error .renditionMultiTrack
   else FStream.startChecks isLeading firstIdx (effInit init0)
 
 /-- the tracks the stream hands to `setTracks` / `OnTracks`, in order -/
